@@ -106,14 +106,21 @@ function parse_root_bracket_level_text_spans(select_expression) {
 }
 
 
+function unescape_string_body(escaped_str) {
+    // Single pass, so that an escaped backslash followed by "n" is not mistaken for a newline escape
+    let escape_map = {'n': '\n', 'r': '\r', 't': '\t'};
+    return escaped_str.replace(/\\([\\'"nrt])/g, (_m, c) => escape_map.hasOwnProperty(c) ? escape_map[c] : c);
+}
+
+
 function unquote_string(quoted_str) {
     // It's possible to use eval here to unqoute the quoted_column_name, but it would be a little barbaric, let's do it manually instead
     if (!quoted_str || quoted_str.length < 2)
         return null;
     if (quoted_str[0] == "'" && quoted_str[quoted_str.length - 1] == "'") {
-        return quoted_str.substring(1, quoted_str.length - 1).replace(/\\'/g, "'").replace(/\\\\/g, "\\");
+        return unescape_string_body(quoted_str.substring(1, quoted_str.length - 1));
     } else if (quoted_str[0] == '"' && quoted_str[quoted_str.length - 1] == '"') {
-        return quoted_str.substring(1, quoted_str.length - 1).replace(/\\"/g, '"').replace(/\\\\/g, "\\");
+        return unescape_string_body(quoted_str.substring(1, quoted_str.length - 1));
     } else {
         return null;
     }
